@@ -44,6 +44,7 @@ Clauses(ev, run) ==
   IN <<
     <<"Completes", TRUE>>,
     <<"ValidNb", Has(run, "valid") => run.valid>>,
+    <<"UniqueCellIds", Has(run, "uniqueids") => run.uniqueids>>,
     <<"AppliesToMerged", AppliesTo(b, D, m)>>,
     <<"AllLocalIsLocal", Flag(run, "allside") => AllSideIs(b, D, "local", lo)>>,
     <<"AllRemoteIsRemote", Flag(run, "allside") => AllSideIs(b, D, "remote", re)>>,
